@@ -1,7 +1,10 @@
 #!/bin/sh
-# try_mutant.sh <patch> <check ids...>: apply to /repo, run the quick checks, undo
-P=$1; shift
-cd /repo && git apply $P || { echo "patch does not apply"; exit 2; }
+# try_mutant.sh <patch> <check ids...>: apply the patch in a scratch worktree of /repo (never in /repo
+# itself) and run the quick checks against it through VERIF_REPO_SRC; remove the worktree afterwards.
+P=$(readlink -f $1); shift
+W=/tmp/mut/_try_$$
+git -C /repo worktree add --detach $W HEAD >/dev/null 2>&1 || { echo "cannot create worktree"; exit 2; }
+( cd $W && git apply $P ) || { echo "patch does not apply"; git -C /repo worktree remove --force $W; exit 2; }
 cd /verif
-for c in "$@"; do echo "== $c"; ./check $c --tier ${TIER:-quick} 2>&1 | grep -E "VIOLATION|KNOWN|MACHINERY|^\[|^  C" | cut -c1-260; done
-git -C /repo checkout -- . ; git -C /repo status --short | head -3
+for c in "$@"; do echo "== $c"; VERIF_REPO_SRC=$W/src ./check $c --tier ${TIER:-quick} 2>&1 | grep -E "VIOLATION|KNOWN|MACHINERY|^\[|^  C" | cut -c1-260; done
+git -C /repo worktree remove --force $W
